@@ -18,8 +18,8 @@
  *     M <blk> <size> | C <blk> <size> | R <old> <new> <size> | S <blk> | F <blk>     one per call
  *     @@PHASE <id> <compile|prepare|execute|vm_delete|program_delete|done>            progress marks
  *     @@OUTCOME <id> <COMPILE_ERROR r|PREPARE_ERROR r|RESULT|EXEC_ERROR r>
- *     A <blk> <hex return addresses, innermost first> <seq>   for blocks live at the end / bad frees
- *                                                              (seq = order of acquisition)
+ *     A <blk> <hex return addresses, innermost first> <seq> <k>   for blocks live at the end / bad frees
+ *                      (seq = order of acquisition; the block is the k-th one acquired at that call site)
  *     @@OUT <id> <first bytes of what the program printed, escaped>
  *     @@END <id> status=<exit N|signal N|timeout>
  * Block numbers: pointers renumbered in order of first appearance inside the bracket, 0 = NULL.
@@ -62,6 +62,10 @@ static uint32_t g_next = 1;
 static unsigned char g_live[MAX_IDS];
 static void * g_site[MAX_IDS];
 static uint32_t g_seq[MAX_IDS];
+static uint32_t g_siteidx[MAX_IDS];      /* this block is the k-th one acquired at its call site (k from 1) */
+#define SITE_TAB 8192
+static uintptr_t g_site_key[SITE_TAB];
+static uint32_t g_site_cnt[SITE_TAB];
 static uint32_t g_clock = 0;
 static void * (*g_sites_bt)[BT_DEPTH] = NULL;
 static int g_overflow = 0;
@@ -128,6 +132,13 @@ static void note_site(uint32_t id, void * ra)
 {
     g_site[id] = ra;
     g_seq[id] = ++g_clock;
+    {
+        uintptr_t k = (uintptr_t)ra;
+        uint32_t h = (uint32_t)((k >> 2) * 2654435761u) & (SITE_TAB - 1), probes = 0;
+        while (g_site_key[h] != 0 && g_site_key[h] != k && probes++ < SITE_TAB) h = (h + 1) & (SITE_TAB - 1);
+        g_site_key[h] = k;
+        g_siteidx[id] = ++g_site_cnt[h];
+    }
     if (g_bt && g_sites_bt)
     {
         void * fr[BT_DEPTH + 2];
@@ -150,7 +161,7 @@ static void print_site(uint32_t id)
         for (i = 0; i < BT_DEPTH && g_sites_bt[id][i]; i++)
             n += snprintf(tmp + n, sizeof tmp - n, "%c%lx", i ? ',' : ' ', (unsigned long)g_sites_bt[id][i]);
     }
-    n += snprintf(tmp + n, sizeof tmp - n, " %u\n", g_seq[id]);
+    n += snprintf(tmp + n, sizeof tmp - n, " %u %u\n", g_seq[id], g_siteidx[id]);
     ev_put(tmp, (size_t)n);
 }
 
@@ -168,7 +179,7 @@ static void released(uint32_t id, void * ra)
     {
         /* a free the monitor will reject: print where it happened and where the block came from */
         if (g_site[id]) print_site(id);
-        ev_line("A %lu %lx %lu\n", id, (unsigned long)ra, ++g_clock, 3);
+        { char t2[96]; int n2 = snprintf(t2, sizeof t2, "A %u %lx %u 0\n", id, (unsigned long)ra, ++g_clock); ev_put(t2, (size_t)n2); }
     }
     g_live[id] = 0;
 }
